@@ -1671,3 +1671,37 @@ def all_(a, axis=None):
         return a
     a = asarray(a)
     return Not_(any_(logical_not(a)))
+
+
+def argsort(a):
+    """np.argsort of a 1-D array of finite numbers: a permutation P of range(n) with a[P[k]] non-decreasing
+    (facts are instantiated where the result is read; the inverse permutation is a ghost function)."""
+    a = _vec(a)
+    c = cur()
+    n = a.extent(0)
+    f = a.snapshot_fn()
+    ax = a.axes[0]
+
+    def at(m):
+        return sym.toF(f((split_index(m, ax),)))
+    bv = _bound_vars(1, "bv")[0]
+    probe = at(bv)
+    key = ("argsort", zi(n).sexpr(), z3.simplify(probe.v).sexpr())
+    if key not in c.memo:
+        P = c.fresh_fun("argsort", z3.IntSort(), z3.IntSort())
+        Q = c.fresh_fun("argsort.inv", z3.IntSort(), z3.IntSort())
+        c.memo[key] = (P, Q)
+        c.memo.setdefault("ghost:argsort", []).append({"P": P, "Q": Q, "n": n, "at": at})
+    P, Q = c.memo[key]
+
+    def fn(idx):
+        k = zi(idx[0][0])
+        v = P(k)
+        inr = z3.And(k >= 0, k < zi(n))
+        c.fact(z3.Implies(inr, z3.And(v >= 0, v < zi(n), Q(v) == k)))
+        c.fact(z3.Implies(z3.And(k >= 0, k + 1 < zi(n)), at(P(k)).v <= at(P(k + 1)).v))
+        c.fact(z3.Implies(z3.And(k >= 1, k < zi(n)), at(P(k - 1)).v <= at(v).v))
+        return v
+    out = Arr(((n,),), fn, "int")
+    out.meta["perm"] = (P, Q)
+    return out
